@@ -95,3 +95,14 @@ end
 def hostOkRoots (rs : Roots) : Bool := rs.all fun x => hostOkKids x.2.children
 
 end Fox.Model
+
+namespace Fox.Model
+open Fox
+
+/-- the suffixes stored below a method root are the full patterns of their routes ("keys concatenate to the leaf's
+    pattern"), and the hostname part of a route is what precedes its first literal '/' -/
+def patOkRoots (rs : Roots) : Bool :=
+  rs.all fun x => (sufsKids x.2.children).all fun sr =>
+    sr.1 == sr.2.pattern && sr.2.hostToks == sr.2.pattern.findIdx (· == Tok.lit SLASH)
+
+end Fox.Model
